@@ -225,17 +225,18 @@ func (t *recTracer) TransitionEnd(tx *am.Transition) {
 }
 
 type Run struct {
-	Lines     []string
-	Obs       []string
-	Failures  []string
-	Err       string
-	Records   int
-	Txs       int
-	Queries   int
-	QHits     int
-	QErrs     int
-	BkQueries int
-	Reopened  int
+	Lines      []string
+	Obs        []string
+	Failures   []string
+	Err        string
+	Records    int
+	Txs        int
+	Queries    int
+	QHits      int
+	QErrs      int
+	BkQueries  int
+	Reopened   int
+	ReopenedBy map[string]int
 }
 
 func names(all am.S, idx []int) am.S {
